@@ -41,10 +41,20 @@ pub struct Pools {
 
 pub fn build_pools() -> Pools {
     // full collisions: birthday search over 3-byte + 4-byte counters
-    let mut v: Vec<(u32, u32)> = Vec::with_capacity(1 << 21);
-    for i in 0u32..(1 << 21) {
-        let k = i.to_be_bytes();
-        v.push((fnv32(&k), i));
+    // keys are 5 mixed bytes of a counter (plain big-endian counters have too much structure for
+    // FNV-1a to collide)
+    fn key_of(i: u32) -> [u8; 5] {
+        let mut z = (i as u64).wrapping_add(0x9E3779B97F4A7C15);
+        z = (z ^ (z >> 30)).wrapping_mul(0xBF58476D1CE4E5B9);
+        z = (z ^ (z >> 27)).wrapping_mul(0x94D049BB133111EB);
+        z ^= z >> 31;
+        let b = z.to_be_bytes();
+        [b[0], b[1], b[2], b[3], b[4]]
+    }
+    let n: u32 = 1 << 23;
+    let mut v: Vec<(u32, u32)> = Vec::with_capacity(n as usize);
+    for i in 0..n {
+        v.push((fnv32(&key_of(i)), i));
     }
     v.sort_unstable();
     let mut full: Vec<Vec<Vec<u8>>> = Vec::new();
@@ -55,7 +65,7 @@ pub fn build_pools() -> Pools {
             j += 1;
         }
         if j - i >= 2 {
-            full.push(v[i..j].iter().map(|(_, k)| k.to_be_bytes().to_vec()).collect());
+            full.push(v[i..j].iter().map(|(_, k)| key_of(*k).to_vec()).collect());
         }
         i = j;
     }
